@@ -68,6 +68,15 @@ void XMLInitializer::initializeDOMHeap (XMLSize_t initialHeapAllocSize,
   kMaxSubAllocationSize = maxSubAllocationSize;
 }
 
+void XMLInitializer::terminateDOMHeap ()
+{
+  // Back to the built-in defaults, so that Initialize() after Terminate()
+  // starts from the same state as the first Initialize().
+  kInitialHeapAllocSize =  0x4000;
+  kMaxHeapAllocSize     = 0x80000;
+  kMaxSubAllocationSize =  0x0100;
+}
+
 //
 //   Constructors.   Warning - be very careful with the ordering of initialization
 //                             of the heap.  Ordering depends on the order of declaration
